@@ -76,10 +76,21 @@ class Namespace(typing.Generic[T]):
         return False
 
     def _load_global(self, name: str) -> expr:
-        return Subscript(
-            value=Call(func=Name(id="globals", ctx=Load()), args=[], keywords=[]),
-            slice=Constant(value=name),
-            ctx=Load(),
+        # a global name is looked up in the module namespace first and in
+        # the builtins after that, like LOAD_GLOBAL does
+        _globals = Call(func=Name(id="globals", ctx=Load()), args=[], keywords=[])
+        return IfExp(
+            test=Compare(left=Constant(value=name), ops=[In()], comparators=[_globals]),
+            body=Subscript(value=_globals, slice=Constant(value=name), ctx=Load()),
+            orelse=Attribute(
+                value=Call(
+                    func=Name(id="__import__", ctx=Load()),
+                    args=[Constant(value="builtins")],
+                    keywords=[],
+                ),
+                attr=name,
+                ctx=Load(),
+            ),
         )
 
 
